@@ -750,6 +750,8 @@ func (ro *RedisOutput) parseAofCommand(replayQuit usync.WaitCloser, reader *bufi
 	var (
 		currentDB = -1
 		bypass    = false
+		txnOpen   = false       // a "multi" was handed to the sender and its "exec" not yet
+		lastSent  = startOffset // end offset of the last command handed to the sender
 		newArgv   [][]byte
 		reject    bool
 	)
@@ -791,9 +793,11 @@ func (ro *RedisOutput) parseAofCommand(replayQuit usync.WaitCloser, reader *bufi
 			return errors.Join(ErrCorrupted, err)
 		}
 		aofCmdCounter.Inc(ro.cfg.InputName)
-		// transaction brackets are never withheld by the database filter : an "exec" swallowed because the
-		// transaction switched to a filtered database would leave the sender inside that transaction forever
-		isTxnBracket := sCmd == "multi" || sCmd == "exec"
+		// the "exec" of a transaction that switched to a filtered database must still reach the sender, which
+		// would otherwise stay inside that transaction forever. It carries the offset of the last command
+		// handed to the sender : the resume position must not move into the filtered region, because a
+		// restart there would not know that the source is in a filtered database
+		closesTxn := bypass && sCmd == "exec" && txnOpen
 
 		// filter db, filter command, filter key
 		if sCmd != "ping" {
@@ -817,14 +821,14 @@ func (ro *RedisOutput) parseAofCommand(replayQuit usync.WaitCloser, reader *bufi
 				ignoresentinel = true
 			}
 
-			if (bypass && !isTxnBracket) || ignoreCmd || ignoresentinel {
+			if (bypass && !closesTxn) || ignoreCmd || ignoresentinel {
 				ro.filterCounterAdd(1)
 				continue
 			}
 		}
 
 		newArgv, reject = ro.outFilter.FilterCmdKey(sCmd, argv)
-		if (bypass && !isTxnBracket) || reject {
+		if (bypass && !closesTxn) || reject {
 			ro.filterCounterAdd(1)
 			continue
 		}
@@ -837,6 +841,7 @@ func (ro *RedisOutput) parseAofCommand(replayQuit usync.WaitCloser, reader *bufi
 				case <-replayQuit.Context().Done():
 					return nil
 				}
+				lastSent = startOffset + incrOffset
 			} else {
 				ro.filterCounterAdd(1)
 			}
@@ -847,10 +852,14 @@ func (ro *RedisOutput) parseAofCommand(replayQuit usync.WaitCloser, reader *bufi
 		for _, item := range newArgv {
 			data = append(data, item)
 		}
+		endOffset := startOffset + incrOffset
+		if closesTxn {
+			endOffset = lastSent
+		}
 		cmdExec := cmdExecution{
 			Cmd:    sCmd,
 			Args:   data,
-			Offset: startOffset + incrOffset,
+			Offset: endOffset,
 			Db:     currentDB,
 		}
 		if len(syncDelayTestkey) > 0 {
@@ -875,6 +884,12 @@ func (ro *RedisOutput) parseAofCommand(replayQuit usync.WaitCloser, reader *bufi
 		case <-replayQuit.Context().Done():
 			return nil
 		}
+		if sCmd == "multi" {
+			txnOpen = true
+		} else if sCmd == "exec" {
+			txnOpen = false
+		}
+		lastSent = endOffset
 	}
 
 	return nil
